@@ -1,6 +1,8 @@
 package rules
 
 import (
+	"go/token"
+	"go/types"
 	"strings"
 
 	"golang.org/x/tools/go/ssa"
@@ -568,7 +570,9 @@ func rulePersistedReadonlyFollowsTheLog(c *eng.Ctx) {
 			}
 		}
 		if !ok {
-			for _, st := range eng.FieldStores(s.Fn, func(fa *ssa.FieldAddr) bool { return eng.FieldNameOf(fa) == "Readonly" && strings.Contains(fa.X.Type().String(), "Partition") }) {
+			for _, st := range eng.FieldStores(s.Fn, func(fa *ssa.FieldAddr) bool {
+				return eng.FieldNameOf(fa) == "Readonly" && strings.Contains(fa.X.Type().String(), "Partition")
+			}) {
 				if eng.Strip(st.Val) == eng.Strip(v) {
 					ok = true
 				}
@@ -626,4 +630,192 @@ func ruleNewPartitionKnowsOnlyItsOwnProgress(c *eng.Ctx) {
 		return
 	}
 	c.Check(ok, "a new partition object knows only its own log end", p.Pos(fn.Pos()), "replica offsets start at -1 (the server's own at its log end)", "newPartition seeds the progress of in-sync replicas with "+why+": a leader that is rebuilt over a non-empty log (restart, resume after a pause) takes its followers to hold everything it holds, and the commit loop acknowledges and commits messages only the leader stores")
+}
+
+// ruleReadonlyReappliedUnconditionally (R06.4 clause shared with C10): newPartition looks at the persisted read-only flag on
+// every path, and makes the log read-only when it is set. A subscription to a read-only partition ends at the end of the log
+// only if the log knows it is read-only — also after the partition object was rebuilt by a resume.
+func ruleReadonlyReappliedUnconditionally(c *eng.Ctx) {
+	fn := c.Fn("server.(*Server).newPartition")
+	if fn == nil {
+		return
+	}
+	isFlag := func(v ssa.Value) bool {
+		f, _ := eng.FieldRead(v)
+		return f != nil && f.Name() == "Readonly" && f.Pkg() != nil && strings.HasSuffix(f.Pkg().Path(), "server/protocol")
+	}
+	set, unset := eng.BoolEdges(fn, isFlag, true), eng.BoolEdges(fn, isFlag, false)
+	if len(set) == 0 {
+		c.Unresolved("the test of Partition.Readonly in newPartition")
+		return
+	}
+	ok, where := true, ""
+	for _, r := range eng.Returns(fn) {
+		rv := eng.RetVals(r)
+		if len(rv) == 0 || !eng.NilConst(rv[len(rv)-1]) {
+			continue
+		}
+		if g, w := eng.GuardedBy(fn, r, append(append([]eng.Edge{}, set...), unset...)); !g {
+			ok, where = false, w.String()
+		}
+	}
+	q := &eng.PathQuery{Fn: fn, FromEdges: set, Target: func(x ssa.Instruction) bool {
+		r, isR := x.(*ssa.Return)
+		if !isR {
+			return false
+		}
+		rv := eng.RetVals(r)
+		return len(rv) > 0 && eng.NilConst(rv[len(rv)-1])
+	}, CutInstr: eng.IsCallTo(cl + "CommitLog.SetReadonly")}
+	if w := q.Find(); w != nil {
+		ok, where = false, w.String()
+	}
+	c.Check(ok, "a rebuilt partition is read-only exactly when its persisted flag says so", c.P.Pos(fn.Pos()), "newPartition tests Partition.Readonly on every path and calls log.SetReadonly(true) when it is set", "newPartition can build a partition without applying the persisted read-only flag ("+where+"): after set-readonly → pause → resume the log is writable again, and a subscription that should end with `end of readonly partition` hangs at the end of the log")
+}
+
+// ruleSwapOnlyAfterASuccessfulPass (R09.8): Clean installs a new segment list only when the pass that produced it succeeded.
+// A list returned next to an error lacks segments whose files could not be removed: swapped in, they leave the in-memory log
+// while still on disk, are never retried, later passes delete what follows them, and a hole opens.
+func ruleSwapOnlyAfterASuccessfulPass(c *eng.Ctx) {
+	p := c.P
+	fn := c.Fn(cl + "(*commitLog).Clean")
+	if fn == nil {
+		return
+	}
+	calls := eng.CallsIn(fn, cl+"commitLog.clean")
+	if len(calls) != 1 {
+		c.Unresolved("the call of commitLog.clean in Clean")
+		return
+	}
+	cv := calls[0].(ssa.Value)
+	errNil := eng.CmpEdges(fn, func(v ssa.Value) bool {
+		e, ok := v.(*ssa.Extract)
+		return ok && e.Tuple == cv && e.Type().String() == "error"
+	}, eng.NilConst, eng.EQ)
+	segF := p.Field(clPkg, "commitLog", "segments")
+	n, ok, where := 0, len(errNil) > 0, ""
+	for _, st := range eng.FieldStores(fn, func(fa *ssa.FieldAddr) bool { return fieldIs(fa, segF) }) {
+		n++
+		if g, w := eng.GuardedBy(fn, st, errNil); !g {
+			ok, where = false, c.Pos(st)+" (path "+w.String()+")"
+		}
+	}
+	c.Check(ok && n > 0, "the cleaned segment list is installed only after a successful pass", p.Pos(fn.Pos()), "l.segments = … only over err == nil of l.clean", "Clean installs the list a failed pass handed back ("+where+"): segments whose files could not be removed drop out of the in-memory log although they are still on disk; they are never retried, later passes remove the segments after them, and after a restart the log has a hole")
+}
+
+// ruleReaderStartsInsideItsSegment (R01.9 extension): a reader asked to start at an offset positions itself with findEntry
+// only when the segment it found CONTAINS the offset; otherwise (retention or compaction removed what was there, or the
+// segment is empty) it starts at the beginning of the segment found. findEntry on a segment that does not hold the offset
+// answers "not found" — or, for an empty newest segment, fails the subscription outright.
+func ruleReaderStartsInsideItsSegment(c *eng.Ctx) {
+	p := c.P
+	for _, key := range []string{cl + "(*commitLog).newReaderUncommitted", cl + "(*commitLog).newReaderCommitted"} {
+		fn := c.Fn(key)
+		if fn == nil {
+			continue
+		}
+		contains := eng.BoolEdges(fn, func(v ssa.Value) bool {
+			e, ok := v.(*ssa.Extract)
+			if !ok || e.Index != 1 {
+				return false
+			}
+			call := eng.AsCall(e.Tuple)
+			return call != nil && eng.CalleeRef(&call.Call) == cl+"findSegmentContains"
+		}, true)
+		fe := eng.CallsIn(fn, cl+"segment.findEntry")
+		ok, where := len(contains) > 0, "no containment test (findSegmentContains) in "+ir.FuncKey(fn)
+		for _, call := range fe {
+			if g, w := eng.GuardedBy(fn, call.(ssa.Instruction), contains); !g {
+				ok, where = false, c.Pos(call.(ssa.Instruction))+" (path "+w.String()+")"
+			}
+		}
+		c.Check(ok, "a reader positions itself by entry only inside a segment that contains its offset ("+ir.FuncKey(fn)+")", p.Pos(fn.Pos()), "findEntry behind contains == true; position 0 otherwise", "the reader looks its start entry up in a segment that need not contain the offset: "+where+" — when retention left only an empty newest segment, or the offset fell into a compaction hole, creating the reader fails with `entry not found` (or it starts at a surviving message below its start offset) instead of continuing at the next message")
+	}
+}
+
+// ruleRebalanceCountsPartitionsNow (R12.8): the partitions a rebalance hands out are counted when it runs. A count remembered
+// from an earlier rebalance outlives the stream it was taken from (deleted and re-created with another partition count):
+// partitions are left unassigned, or members are given partitions that do not exist.
+func ruleRebalanceCountsPartitionsNow(c *eng.Ctx) {
+	p := c.P
+	fn := c.Fn("server.(*consumerGroup).balanceAssignmentsForStream")
+	if fn == nil {
+		return
+	}
+	isCount := func(v ssa.Value) bool {
+		call := eng.AsCall(eng.Strip(v))
+		if call == nil {
+			return false
+		}
+		return eng.LoadNamed("getStreamPartitions", nil)(call.Call.Value)
+	}
+	n, ok, why := 0, true, ""
+	eng.Instrs(fn, func(in ssa.Instruction) {
+		bo, isB := in.(*ssa.BinOp)
+		if !isB || bo.Op != token.LSS {
+			return
+		}
+		if _, isPhi := bo.X.(*ssa.Phi); !isPhi {
+			return
+		}
+		if t, isBasic := bo.Y.Type().Underlying().(*types.Basic); !isBasic || t.Kind() != types.Int32 {
+			return
+		}
+		n++
+		if !isCount(bo.Y) {
+			ok, why = false, eng.Describe(bo.Y)
+		}
+	})
+	if n == 0 {
+		c.Unresolved("the partition loop of balanceAssignmentsForStream")
+		return
+	}
+	c.Check(ok, "a rebalance counts the stream's partitions when it runs", p.Pos(fn.Pos()), "the loop bound is c.getStreamPartitions(stream), called in the rebalance", "the number of partitions a rebalance assigns is "+why+", not a fresh getStreamPartitions(stream): a remembered count survives the deletion and re-creation of the stream with another partition count")
+}
+
+// ruleRegisteredMemberIsThisCall (R13.9): after a successful group Subscribe the partition's member record for the group
+// carries THIS call's consumer id, group epoch and subscription. The epoch is the fence for the next subscriber: a record
+// that keeps the epoch it was created with admits an older member after a hand-over.
+func ruleRegisteredMemberIsThisCall(c *eng.Ctx) {
+	p := c.P
+	fn := c.Fn("server.(*partition).Subscribe")
+	if fn == nil {
+		return
+	}
+	noGroup := eng.CmpEdges(fn, eng.AnyV, eng.StrConst(""), eng.EQ)
+	for _, fld := range []string{"consumerID", "groupEpoch", "sub"} {
+		f := p.Field("server", "groupMember", fld)
+		if f == nil {
+			c.Unresolved("field groupMember." + fld)
+			continue
+		}
+		set := func(x ssa.Instruction) bool {
+			st, ok := x.(*ssa.Store)
+			if !ok {
+				return false
+			}
+			fa, ok := st.Addr.(*ssa.FieldAddr)
+			return ok && fieldIs(fa, f)
+		}
+		registers := false
+		eng.Instrs(fn, func(in ssa.Instruction) {
+			if set(in) {
+				registers = true
+			}
+		})
+		if !registers {
+			c.Unresolved("a store to groupMember." + fld + " in partition.Subscribe")
+			continue
+		}
+		q := &eng.PathQuery{Fn: fn, FromEntry: true, Target: func(x ssa.Instruction) bool {
+			r, isR := x.(*ssa.Return)
+			if !isR {
+				return false
+			}
+			rv := eng.RetVals(r)
+			return len(rv) == 2 && eng.NilConst(rv[1])
+		}, CutInstr: set, CutEdges: noGroup}
+		w := q.Find()
+		c.Check(w == nil, "a successful group subscription registers this call's "+fld, p.Pos(fn.Pos()), "every successful return with a group has stored groupMember."+fld, "partition.Subscribe can succeed for a group without storing "+fld+" of the registered member ("+w.String()+"): the record keeps what an earlier subscriber put there — with the epoch stale, a member of an older group epoch is admitted after a hand-over and cancels the current one")
+	}
 }
